@@ -233,7 +233,7 @@ def run(ctx):
             ctx.violation("hand-written program %s no longer compiles to SPIR-V: %s" % (name, {k: v for k, v in (c or {}).items() if k in ("err", "stage", "spv_err", "panic", "crash")}),
                           files={"program.wgsl": src}, key="spv-rejects:%s" % name, broken="naga.GenerateSPIRV on a valid program")
             continue
-        inputs = spvcheck.gen_inputs(c["ir"], ctx.rng.fork("hand/" + name), ctx.scale(4, 40), rt_len=24, small_ints=[0, 1, 2, 3, 4, 5])
+        inputs = spvcheck.gen_inputs(c["ir"], ctx.rng.fork("hand/" + name), ctx.scale(4, 16), rt_len=24, small_ints=[0, 1, 2, 3, 4, 5])
         if inputs is None:
             continue
         items.append((c, inputs, None))
@@ -245,7 +245,7 @@ def run(ctx):
         ctx.sample({"program": meta[0][0], "inputs": meta[0][2][0]["buffers"]})
 
     # 2. generated programs
-    n_gen = ctx.scale(16, 400)
+    n_gen = ctx.scale(16, 150)
     gprogs = []
     for k in range(n_gen):
         r = ctx.rng.fork("gen/%d" % k)
@@ -260,7 +260,7 @@ def run(ctx):
         if c is None or "ir" not in c or "spv" not in c:
             rejected += 1          # acceptance of valid programs is C08's property; counted, not reported here
             continue
-        inputs = spvcheck.generated_inputs(wgslgen, prog, ctx.rng.fork("genin/" + name), ctx.scale(3, 6))
+        inputs = spvcheck.generated_inputs(wgslgen, prog, ctx.rng.fork("genin/" + name), ctx.scale(3, 4))
         items.append((c, inputs, None))
         meta.append((name, src, inputs, spvcheck.spv_words(c["spv"])))
     for (name, src, inputs, words), res in zip(meta, spvcheck.run_items(exe_ir, exe_spv, items)):
@@ -280,7 +280,7 @@ def run(ctx):
         if c is None or "ir" not in c or "spv" not in c:
             continue
         for _epi, epname in spvcheck.compute_entry_points(c["ir"]):
-            inputs = spvcheck.gen_inputs(c["ir"], ctx.rng.fork("corpus/" + name + epname), ctx.scale(2, 6), small_ints=[0, 1, 2, 3])
+            inputs = spvcheck.gen_inputs(c["ir"], ctx.rng.fork("corpus/" + name + epname), ctx.scale(2, 4), small_ints=[0, 1, 2, 3])
             if inputs is None:
                 continue
             items.append((c, inputs, epname))
